@@ -18,6 +18,12 @@ for f in sorted(os.listdir(props)):
         # keep only the docstring immediately preceding
         thms.append({'name': ns + '.' + mm.group(2), 'statement': doc[-600:]})
     reg[pid] = {'modules': ['MsmVerif.Props.' + pid], 'theorems': thms}
+DEFAULT_MODULES = {'C01': 'Msm', 'C02': 'Heap', 'C03': 'Linalg', 'C04': 'Linalg', 'C05': 'Coring', 'C06': 'Events', 'C07': 'Mcmc',
+                   'C08': 'Events', 'C09': 'Linalg', 'C10': 'Timescales', 'C11': 'Msm', 'C12': 'Basic', 'C13': 'Compare', 'C14': 'Linalg',
+                   'C15': 'Relabel', 'C16': 'TextIO', 'C17': 'Basic', 'C18': 'Heap', 'C19': 'TextIO', 'C20': 'Filter'}
+for pid, mod in DEFAULT_MODULES.items():
+    if pid not in reg and os.path.exists(os.path.join(HOME, 'lean', 'MsmVerif', 'Model', mod + '.lean')):
+        reg[pid] = {'modules': ['MsmVerif.Model.' + mod], 'theorems': []}
 json.dump(reg, open(os.path.join(HOME, 'lean', 'registry.json'), 'w'), indent=1)
 for k, v in reg.items():
     print(k, len(v['theorems']))
